@@ -9,7 +9,7 @@ from ..world import DictStorage
 from cloudsync.sync.sqlite_storage import SqliteStorage
 
 PROP = "C09"
-TAGS = ["t1", "t2"]
+TAGS = ["t1", "T1", "t12"]        # another tag, a tag differing only by case, a tag with a common prefix
 BIG = bytes(range(256)) * 1200          # 300 KiB
 VALUES = {"e": b"", "x": b"x", "n": b"\xff\x00", "i": 7, "B": BIG}
 _counter = itertools.count()
@@ -22,7 +22,7 @@ def configs(tier):
 
 
 def depth(tier, cfg):
-    return 4 if tier == "quick" else 5
+    return 3 if tier == "quick" else 4
 
 
 def cap(tier):
@@ -32,9 +32,9 @@ def cap(tier):
 def alphabet(cfg):
     ops = []
     for t in TAGS:
-        for v in VALUES:
+        for v in (VALUES if t == TAGS[0] else ("x", "i")):
             ops.append(["create", t, v])
-        for i in range(4):          # 0..2 = k-th id issued so far, 3 = an id never issued
+        for i in range(3):          # 0..1 = k-th id issued so far, 2 = an id never issued
             for v in ("x", "i"):
                 ops.append(["update", t, i, v])
             ops.append(["delete", t, i])
@@ -126,7 +126,7 @@ def apply(st, op, check):
             if (t, eid) in m:
                 bad("create-id-live", "id-in-use", id=eid, tag=t)
             m[(t, eid)] = v
-            if eid not in st.ids and len(st.ids) < 3:
+            if eid not in st.ids and len(st.ids) < 2:
                 st.ids.append(eid)
             st.fresh = False
         elif k == "update":
@@ -194,8 +194,8 @@ def dump(st):
 
 def main(tier):
     rep = apix.run(PROP, __name__, tier,
-                   rule="all call sequences up to depth 4 (5 thorough) over create/update/delete/read/read_all/close+reopen, "
-                        "tags {t1,t2}, ids {the first three issued, one never issued}, values {empty, 1 byte, non-UTF-8, "
+                   rule="all call sequences up to depth 3 (4 thorough) over create/update/delete/read/read_all/close+reopen, "
+                        "tags {t1, T1 (case variant), t12 (common prefix)}, ids {the first two issued, one never issued}, values {empty, 1 byte, non-UTF-8, "
                         "300 KiB, int}; backends SqliteStorage on a /dev/shm file, SqliteStorage :memory:, upstream MockStorage; "
                         "after every call the full contents are compared with a dict; deduplicated on the dict",
                    technique="explicit-state BFS over API call sequences of the real storage backends against a dict model",
